@@ -51,9 +51,12 @@ the C++ lexer: each image is the character itself (never for `"`, `\`, LF, CR) o
 the letter of the simple escape sequence that denotes it. Re-checked on every run. -/
 theorem escape_table_ok : TableOk pyTable := by decide
 
-/-- Every single-character image of `as_cpp_string_literal` is `"` + text + `"` (so the table
-above is all there is to the per-character behaviour). Re-checked on every run. -/
-theorem escape_shape_ok : Gen.escapeShape = "ok" := by decide
+/-- Every single-character image of `as_cpp_string_literal` is `"` + text + `"`, and on the
+multi-character probe strings (all pairs and triples over the special characters, runs of `?`
+before every trigraph character, …) the function equals the concatenation of the per-character
+images: the table above is all there is to its behaviour — it is not context dependent.
+Re-checked on every run. -/
+theorem escape_shape_ok : Gen.escapeShape = "ok" ∧ Gen.escapeHomomorphic = "ok" := by decide
 
 /-- `?` is written `\\?` (since the repair 31a449a): two question marks are never adjacent in an
 emitted literal, so no trigraph can form. Re-checked on every run. -/
@@ -88,9 +91,10 @@ produces is one C++ string literal (C++17 lexing: no trigraphs) and it denotes e
 theorem str_roundtrip (s : String) : cppString (renderStr s) = some s := by
   simp [cppString, renderStr, String.toList_ofList, cppStringL_render escape_table_ok]
 
-/-- the same, as the Spec predicate on the model's output (type recorded: `string`) -/
+/-- the same, as the Spec predicate on the model's output: both lexing dialects, type `string` -/
 theorem str_const_ok (s : Str) : ConstOk (.str s) (renderStrL pyTable s) .string :=
-  ⟨cppStringL_render escape_table_ok s, rfl⟩
+  ⟨cppStringL_render escape_table_ok s,
+   cppStringTriL_render_escaped escape_table_ok escape_table_question s, rfl⟩
 
 /-- The string literal is found again in any context: whatever text follows the rendered
 literal, the lexer stops exactly at its closing quote and returns `s`. -/
@@ -110,6 +114,12 @@ run as a repaired defect.) -/
 theorem str_roundtrip_trigraphs (s : String) : cppStringTri (renderStr s) = some s := by
   simp [cppStringTri, renderStr, String.toList_ofList,
     cppStringTriL_render_escaped escape_table_ok escape_table_question]
+
+/-- … and in any context: under trigraph replacement too the lexer stops exactly at the closing
+quote of the rendered literal and returns `s` (the text after it is whatever phase 1 makes of it). -/
+theorem str_in_context_trigraphs (s tail : Str) :
+    cppStringLit (detri (renderStrL pyTable s ++ tail)) = some (s, detri tail) :=
+  cppStringLit_detri_render escape_table_ok escape_table_question s tail
 
 /-- PARTIAL (what a `const char*` / `std::string` parameter receives, e.g. the bank name in
 `retrieve(result, "…")`): the string itself, provided it contains no NUL. -/
@@ -334,6 +344,13 @@ theorem bank_roundtrip (pre suf bank : Str) :
     cppStringLit ((bankLine pyTable pre suf bank).drop pre.length) = some (bank, suf) :=
   bankLine_lit escape_table_ok pre suf bank
 
+/-- Bank names under trigraph replacement (ISO C++ before C++17): the same, for ALL bank names. -/
+theorem bank_roundtrip_trigraphs (pre suf bank : Str) :
+    cppStringLit (detri ((bankLine pyTable pre suf bank).drop pre.length)) = some (bank, detri suf) := by
+  unfold bankLine
+  rw [List.append_assoc, drop_length_append]
+  exact cppStringLit_detri_render escape_table_ok escape_table_question bank suf
+
 /-- **Tree and branch names, all of them.** In every booking / fill line of the three backends,
 as regenerated from the source, for EVERY tree name, branch name and leaf variable (quotes,
 backslashes, newlines … no hypothesis), the string literal at the name's place denotes exactly
@@ -351,6 +368,20 @@ theorem names_roundtrip (b : String × List (List Seg)) (hb : b ∈ bookTable ++
   exact nameAt_bookLine escape_table_ok segs (book_lines_ok b hb segs hs) tree col var off k esc hslot
     (fun h => by rw [hesc] at h; cases h)
 
+/-- … and under trigraph replacement (ISO C++ before C++17): for EVERY tree name, branch name and
+leaf variable the literal at the name's place still denotes exactly the name (`???/`, `??=` …). -/
+theorem names_roundtrip_trigraphs (b : String × List (List Seg)) (hb : b ∈ bookTable ++ fillTable)
+    (segs : List Seg) (hs : segs ∈ b.2) (tree col var : Str) (off : Nat) (k : NameKind) (esc : Bool)
+    (hslot : nameSlot segs = some (off, k, esc)) :
+    nameAtTri off (renderSegs pyTable tree col var segs) = some (pickName k tree col) := by
+  have hv := all_names_escaped b hb segs hs
+  have hesc : esc = true := by
+    unfold verbatimSlot at hv
+    rw [hslot] at hv
+    simpa using hv
+  subst hesc
+  exact nameAtTri_bookLine escape_table_ok escape_table_question segs tree col var off k hslot
+
 /-- the same as one decidable fact per line, e.g. for the names that used to break it -/
 theorem names_roundtrip_on_repaired_inputs :
     ∀ b ∈ bookTable ++ fillTable, ∀ segs ∈ b.2,
@@ -363,6 +394,9 @@ example : cppString (renderStr "a\"b\\c\nd\re\tf?'ü") = some "a\"b\\c\nd\re\tf?
 example : renderStr "a\"b" = "\"a\\\"b\"" := by decide
 example : hasTrigraph "what?? no!".toList = false ∧ hasTrigraph "a??/".toList = true := by decide
 example : renderStr "a??/" = "\"a\\?\\?/\"" ∧ cppStringTri (renderStr "a??/") = some "a??/" := by decide
+-- what a pairwise `replace("??", "?\\?")` would emit for `???/` is NOT read back under trigraph replacement
+example : cppStringTri "\"?\\??/\"" ≠ some "???/" ∧ cppString "\"?\\??/\"" = some "???/" ∧
+    cppStringTri (renderStr "???/") = some "???/" := by decide
 example : InInt32 (-2147483648) ∧ InInt32 2147483647 ∧ ¬ InInt32 2147483648 := by decide
 example : cppInt (pyIntStr (-2147483648)) = some (-2147483648, .long) := by decide
 example : pyIntStr (-1234567890) = "-1234567890" := by decide
